@@ -120,7 +120,10 @@ def parse(cmd, rc, out, err, wall, R, gen_name):
         origin = R.origin[gl - 1] if 0 < gl <= len(R.origin) else ('?',)
         fn = None
         # the function the error belongs to: any span inside a fn range
-        for s in d.get('spans', []):
+        spans_sorted = sorted(d.get('spans', []), key=lambda sp: 0 if sp.get('is_primary') else 1)
+        for s in spans_sorted:
+            if os.path.basename(s.get('file_name', '')) != gen_name:
+                continue
             for fr in R.fn_ranges:
                 if fr['start'] <= s['line_start'] <= fr['end']:
                     fn = fr
